@@ -329,7 +329,7 @@ impl<'s> G<'s> {
 
     pub fn finish(self, kind: &str) -> Program {
         let n = self.nodes.len();
-        Program { kind: kind.to_string(), nodes: self.nodes, n_chans: self.n_chans, sink_order: self.sink_order, n_inspect: self.n_inspect, emit_order: (0..n).collect() }
+        Program { kind: kind.to_string(), nodes: self.nodes, n_chans: self.n_chans, sink_order: self.sink_order, n_inspect: self.n_inspect, emit_order: (0..n).collect(), loops: vec![], node_loop: vec![], n_refs: 0 }
     }
 }
 
@@ -355,4 +355,586 @@ pub fn gen_free(sim: &mut Sim, cfg: &GenCfg) -> Program {
     }
     g.close();
     g.finish(cfg.kind)
+}
+
+// =============================================================================================
+// Property-specific templates
+
+impl<'s> G<'s> {
+    fn rand_item(&mut self) -> It {
+        (self.sim.choose("ik", 0, cl::KD as u64 - 1) as u8, self.sim.choose("iv", 0, cl::VD as u64 - 1) as i16)
+    }
+    /// A stateless operator that keeps the order tag (and single-ness where possible).
+    fn stateless_on(&mut self, o: Open) -> Open {
+        self.open.push(o);
+        let idx = self.open.len() - 1;
+        let o = self.open.remove(idx);
+        match self.sim.weighted("stateless2", &[5, 4, 3, 2, 1]) {
+            0 => {
+                let f = self.f(cl::N_MAP);
+                self.node_on(Op::Map { f }, o, o.order, o.single)
+            }
+            1 => {
+                let f = self.f(cl::N_FILTER);
+                self.node_on(Op::Filter { f }, o, o.order, o.single)
+            }
+            2 => {
+                let f = self.f(cl::N_FILTER_MAP);
+                self.node_on(Op::FilterMap { f }, o, o.order, o.single)
+            }
+            3 => {
+                let f = self.f(cl::N_FLAT_MAP);
+                self.node_on(Op::FlatMap { f }, o, o.order, false)
+            }
+            _ => self.node_on(Op::Identity, o, o.order, o.single),
+        }
+    }
+    fn node_on(&mut self, op: Op, o: Open, order: Order, single: bool) -> Open {
+        let n = self.push(op, vec![o.src]);
+        Open { src: Src { node: n, port: 0 }, order, single }
+    }
+    fn node2(&mut self, op: Op, a: Open, b: Open, order: Order, single: bool) -> Open {
+        let n = self.push(op, vec![a.src, b.src]);
+        Open { src: Src { node: n, port: 0 }, order, single }
+    }
+    /// Tee a stream: returns two handles to it.
+    fn tee2(&mut self, o: Open) -> (Open, Open) {
+        let t = self.push(Op::Tee, vec![o.src]);
+        (Open { src: Src { node: t, port: 0 }, ..o }, Open { src: Src { node: t, port: 1 }, ..o })
+    }
+    fn sink(&mut self, o: Open) {
+        let id = self.sink_order.len();
+        self.sink_order.push(o.order);
+        self.push(Op::Sink { id }, vec![o.src]);
+    }
+    fn new_source(&mut self) -> Open {
+        let c = self.n_chans;
+        self.n_chans += 1;
+        let n = self.push(Op::Src { chan: c }, vec![]);
+        Open { src: Src { node: n, port: 0 }, order: Order::Seq, single: false }
+    }
+    /// A same-tick blocking operator nested inside a feeder pipeline.
+    fn nested_blocking(&mut self, o: Open) -> Open {
+        match self.sim.weighted("nested_blocking", &[3, 3, 3, 2, 2, 2]) {
+            0 => {
+                let p = pers(self.sim);
+                let f = self.f_ord(o.order, cl::N_FOLD_COMM, cl::N_FOLD);
+                self.node_on(Op::Fold { p, f }, o, Order::Seq, true)
+            }
+            1 => {
+                let p = pers(self.sim);
+                let f = self.f_ord(o.order, cl::N_REDUCE_COMM, cl::N_REDUCE);
+                self.node_on(Op::Reduce { p, f }, o, Order::Seq, true)
+            }
+            2 => self.node_on(Op::Sort, o, Order::Seq, o.single),
+            3 => {
+                let p = pers(self.sim);
+                self.node_on(Op::Unique { p }, o, o.order, o.single)
+            }
+            4 => {
+                let p = pers(self.sim);
+                let f = self.f_ord(o.order, cl::N_KEYED_COMM, cl::N_KEYED);
+                self.node_on(Op::FoldKeyed { p, f }, o, Order::Bag, false)
+            }
+            _ => self.node_on(Op::Persist, o, Order::Bag, false),
+        }
+    }
+}
+
+/// C23: a blocking consumer whose blocking input is produced by a same-tick pipeline of depth
+/// 1-6 (maps, filters, unions of several sources, tees, nested blocking operators).
+pub fn gen_blocking(sim: &mut Sim) -> Program {
+    let mut g = G::new(sim);
+    let n_src = g.sim.choose("n_chans", 2, 3) as usize;
+    let mut pool: Vec<Open> = (0..n_src).map(|_| g.new_source()).collect();
+    // the feeder
+    let first = pool.remove(g.sim.choose("feeder_src", 0, pool.len() as u64 - 1) as usize);
+    let (mut feeder, keep) = g.tee2(first);
+    pool.push(keep);
+    let depth = g.sim.choose("depth", 1, 6);
+    for _ in 0..depth {
+        feeder = match g.sim.weighted("feeder_step", &[5, 3, 2, 3]) {
+            0 => g.stateless_on(feeder),
+            1 => {
+                // union with (a copy of) another stream
+                let k = g.sim.choose("union_with", 0, pool.len() as u64 - 1) as usize;
+                let other = pool.remove(k);
+                let (a, b) = g.tee2(other);
+                pool.push(b);
+                g.node2(Op::Union, feeder, a, Order::Bag, false)
+            }
+            2 => {
+                // a tee leg goes to the pool, the pipeline continues
+                let (a, b) = g.tee2(feeder);
+                pool.push(b);
+                a
+            }
+            _ => g.nested_blocking(feeder),
+        };
+    }
+    // the other side, where the consumer has one
+    let k = g.sim.choose("other_side", 0, pool.len() as u64 - 1) as usize;
+    let other0 = pool.remove(k);
+    let (other, other_keep) = g.tee2(other0);
+    pool.push(other_keep);
+    let other = if g.sim.flip("other_stateless", 1, 2) { g.stateless_on(other) } else { other };
+    let both_seq = feeder.order == Order::Seq && other.order == Order::Seq;
+    let w = [4, 4, 3, 3, 3, 2, if both_seq { 3 } else { 0 }, 3, 3, 2, 2];
+    let out = match g.sim.weighted("consumer", &w) {
+        0 => {
+            let (pp, pn) = (pers(g.sim), pers(g.sim));
+            g.node2(Op::AntiJoin { pp, pn }, other, feeder, if pp == Pers::Tick { other.order } else { Order::Bag }, false)
+        }
+        1 => {
+            let (pp, pn) = (pers(g.sim), pers(g.sim));
+            g.node2(Op::Difference { pp, pn }, other, feeder, if pp == Pers::Tick { other.order } else { Order::Bag }, false)
+        }
+        2 => {
+            pool.push(other);
+            let p = pers(g.sim);
+            let f = g.f_ord(feeder.order, cl::N_FOLD_COMM, cl::N_FOLD);
+            g.node_on(Op::Fold { p, f }, feeder, Order::Seq, true)
+        }
+        3 => {
+            pool.push(other);
+            let p = pers(g.sim);
+            let f = g.f_ord(feeder.order, cl::N_REDUCE_COMM, cl::N_REDUCE);
+            g.node_on(Op::Reduce { p, f }, feeder, Order::Seq, true)
+        }
+        4 => {
+            pool.push(other);
+            g.node_on(Op::Sort, feeder, Order::Seq, false)
+        }
+        5 => {
+            pool.push(other);
+            g.node_on(Op::Persist, feeder, Order::Bag, false)
+        }
+        6 => {
+            let f = g.f(cl::N_PAIR);
+            g.node2(Op::Zip { f }, other, feeder, Order::Seq, false)
+        }
+        7 => {
+            // cross_singleton on a folded feeder
+            let f0 = g.f_ord(feeder.order, cl::N_FOLD_COMM, cl::N_FOLD);
+            let p = pers(g.sim);
+            let single = g.node_on(Op::Fold { p, f: f0 }, feeder, Order::Seq, true);
+            let f = g.f(cl::N_PAIR);
+            g.node2(Op::CrossSingleton { f }, other, single, other.order, false)
+        }
+        8 => {
+            // a `#singleton` reference to the folded feeder
+            let f0 = g.f_ord(feeder.order, cl::N_FOLD_COMM, cl::N_FOLD);
+            let p = pers(g.sim);
+            let folded = g.node_on(Op::Fold { p, f: f0 }, feeder, Order::Seq, true);
+            let h = g.push(Op::HoffSingleton, vec![folded.src]);
+            let f = g.f(cl::N_REF);
+            g.node_on(Op::RefMap { target: h, group: 0, write: false, f }, other, other.order, false)
+        }
+        9 => {
+            let (pl, pr) = (pers(g.sim), pers(g.sim));
+            let f = g.f(cl::N_PAIR);
+            let multiset = g.sim.flip("ms", 1, 2);
+            g.node2(Op::Join { pl, pr, multiset, f }, other, feeder, Order::Bag, false)
+        }
+        _ => {
+            pool.push(other);
+            let p = pers(g.sim);
+            let f = g.f_ord(feeder.order, cl::N_KEYED_COMM, cl::N_KEYED);
+            g.node_on(Op::FoldKeyed { p, f }, feeder, Order::Bag, false)
+        }
+    };
+    // 0-2 more operators downstream, then sinks
+    let mut out = out;
+    for _ in 0..g.sim.choose("post", 0, 2) {
+        out = g.stateless_on(out);
+    }
+    g.open = pool;
+    g.open.push(out);
+    g.close();
+    g.finish("blocking")
+}
+
+/// C24: chains of `defer_tick()` / `defer_tick_lazy()` mixed with stateful operators, optionally
+/// with a decaying feedback cycle through a deferred edge.
+pub fn gen_defer(sim: &mut Sim) -> Program {
+    let mut g = G::new(sim);
+    let n_src = g.sim.choose("n_chans", 1, 2) as usize;
+    let mut pool: Vec<Open> = (0..n_src).map(|_| g.new_source()).collect();
+    let mut cur = pool.remove(0);
+    // optional feedback cycle: cur = union(cur, fb) ... fb = decay(cur') -> defer
+    let feedback = g.sim.flip("feedback", 2, 5);
+    let mut fb_union = None;
+    if feedback {
+        let u = g.push(Op::Union, vec![cur.src, Src { node: usize::MAX, port: 0 }]);
+        fb_union = Some(u);
+        cur = Open { src: Src { node: u, port: 0 }, order: Order::Bag, single: false };
+    }
+    let n_defer = g.sim.choose("n_defer", 1, 4);
+    let mut placed = 0;
+    let steps = n_defer + g.sim.choose("extra_steps", 0, 4);
+    for s in 0..steps {
+        let must_defer = steps - s <= n_defer - placed;
+        let w: [u64; 5] = if must_defer { [0, 0, 1, 0, 0] } else { [3, 3, if placed < n_defer { 4 } else { 0 }, 2, 2] };
+        cur = match g.sim.weighted("defer_step", &w) {
+            0 => g.stateless_on(cur),
+            1 => {
+                // stateful operator with a random lifetime; replaying operators only outside a cycle
+                let seq = cur.order == Order::Seq;
+                let w2 = [3, 3, if seq { 2 } else { 0 }, if feedback { 0 } else { 2 }, 2, if feedback { 0 } else { 1 }];
+                match g.sim.weighted("defer_stateful", &w2) {
+                    0 => {
+                        let p = pers(g.sim);
+                        g.node_on(Op::Unique { p }, cur, cur.order, cur.single)
+                    }
+                    1 => {
+                        let p = if feedback { Pers::Tick } else { pers(g.sim) };
+                        let f = g.f_ord(cur.order, cl::N_REDUCE_COMM, cl::N_REDUCE);
+                        g.node_on(Op::Reduce { p, f }, cur, Order::Seq, true)
+                    }
+                    2 => {
+                        let p = pers(g.sim);
+                        g.node_on(Op::Enumerate { p }, cur, Order::Seq, cur.single)
+                    }
+                    3 => {
+                        let p = pers(g.sim);
+                        let f = g.f_ord(cur.order, cl::N_FOLD_COMM, cl::N_FOLD);
+                        g.node_on(Op::Fold { p, f }, cur, Order::Seq, true)
+                    }
+                    4 => g.node_on(Op::MultisetDelta, cur, cur.order, cur.single),
+                    _ => g.node_on(Op::Persist, cur, Order::Bag, false),
+                }
+            }
+            2 => {
+                placed += 1;
+                if g.sim.flip("lazy", 1, 3) { g.node_on(Op::DeferTickLazy, cur, Order::Bag, cur.single) } else { g.node_on(Op::DeferTick, cur, Order::Bag, cur.single) }
+            }
+            3 => {
+                // observe the stream at this point
+                let (a, b) = g.tee2(cur);
+                g.sink(b);
+                a
+            }
+            _ => {
+                if pool.is_empty() {
+                    g.stateless_on(cur)
+                } else {
+                    let other = pool.remove(0);
+                    g.node2(Op::Union, cur, other, Order::Bag, false)
+                }
+            }
+        };
+    }
+    if let Some(u) = fb_union {
+        let (a, b) = g.tee2(cur);
+        let d = g.node_on(Op::Decay, b, b.order, b.single);
+        let d = if g.sim.flip("fb_map", 1, 2) { g.node_on(Op::Map { f: 1 }, d, d.order, d.single) } else { d };
+        // the cycle must contain a deferred edge; if the chain above already has one, this edge may be direct
+        let back = if g.sim.flip("fb_lazy", 1, 4) { g.node_on(Op::DeferTickLazy, d, Order::Bag, false) } else { g.node_on(Op::DeferTick, d, Order::Bag, false) };
+        g.nodes[u].ins[1] = back.src;
+        cur = a;
+    }
+    g.open = pool;
+    g.open.push(cur);
+    g.close();
+    g.finish("defer")
+}
+
+/// C25: shared state held by a handoff (`fold -> singleton()`, `reduce -> optional()`,
+/// `handoff()`), read and updated through `#{group} [mut] name` references from 2-4 access groups.
+pub fn gen_refs(sim: &mut Sim) -> Program {
+    let mut g = G::new(sim);
+    let n_src = g.sim.choose("n_chans", 2, 3) as usize;
+    let srcs: Vec<Open> = (0..n_src).map(|_| g.new_source()).collect();
+    // every source is teed so that any number of consumers can read it
+    let mut taps: Vec<Open> = srcs;
+    let mut tap = |g: &mut G, k: usize| -> Open {
+        let o = taps.remove(k);
+        let (a, b) = g.tee2(o);
+        taps.insert(k, b);
+        a
+    };
+    let n_states = g.sim.choose("n_states", 1, 2) as usize;
+    let mut outs: Vec<Open> = vec![];
+    for _ in 0..n_states {
+        // the producer of the state: a same-tick pipeline of depth 0-3
+        let k = g.sim.choose("state_src", 0, n_src as u64 - 1) as usize;
+        let mut feeder = tap(&mut g, k);
+        for _ in 0..g.sim.choose("state_depth", 0, 3) {
+            feeder = if g.sim.flip("state_union", 1, 4) {
+                let k2 = g.sim.choose("state_src2", 0, n_src as u64 - 1) as usize;
+                let o = tap(&mut g, k2);
+                g.node2(Op::Union, feeder, o, Order::Bag, false)
+            } else {
+                g.stateless_on(feeder)
+            };
+        }
+        let hoff = match g.sim.weighted("state_kind", &[4, 3, 2]) {
+            0 => {
+                let p = pers(g.sim);
+                let f = g.f_ord(feeder.order, cl::N_FOLD_COMM, cl::N_FOLD);
+                let fo = g.node_on(Op::Fold { p, f }, feeder, Order::Seq, true);
+                g.push(Op::HoffSingleton, vec![fo.src])
+            }
+            1 => {
+                let p = pers(g.sim);
+                let f = g.f_ord(feeder.order, cl::N_REDUCE_COMM, cl::N_REDUCE);
+                let fo = g.node_on(Op::Reduce { p, f }, feeder, Order::Seq, true);
+                g.push(Op::HoffOptional, vec![fo.src])
+            }
+            _ => g.push(Op::HoffVec, vec![feeder.src]),
+        };
+        let hoff_order = match g.nodes[hoff].op {
+            Op::HoffVec => Order::Bag,
+            _ => Order::Seq,
+        };
+        // access groups
+        let n_groups = g.sim.choose("n_groups", 2, 4) as u32;
+        for grp in 0..n_groups {
+            let writer = g.sim.flip("writer", 2, 5);
+            let n_ops = if writer { 1 } else { g.sim.choose("readers", 1, 2) };
+            for _ in 0..n_ops {
+                let k = g.sim.choose("ref_src", 0, n_src as u64 - 1) as usize;
+                let mut inp = tap(&mut g, k);
+                for _ in 0..g.sim.choose("ref_pre", 0, 2) {
+                    inp = g.stateless_on(inp);
+                }
+                let f = g.f(cl::N_REF);
+                // a writer's input order is specified (Seq): the values it sees are then determined
+                let o = g.node_on(Op::RefMap { target: hoff, group: grp, write: writer, f }, inp, inp.order, false);
+                outs.push(o);
+            }
+        }
+        // optionally the state also flows on through a pipe (after every reference holder)
+        if g.sim.flip("state_consumer", 1, 2) {
+            outs.push(Open { src: Src { node: hoff, port: 0 }, order: hoff_order, single: false });
+        }
+    }
+    for t in taps {
+        outs.push(t);
+    }
+    g.open = outs;
+    g.close();
+    let mut p = g.finish("refs");
+    p.n_refs = p.ref_ids().len();
+    p
+}
+
+// ---- C26: loop templates -----------------------------------------------------------------------
+
+struct LoopB<'a, 's> {
+    g: &'a mut G<'s>,
+    loops: Vec<Option<usize>>,
+    node_loop: Vec<Option<usize>>,
+}
+impl LoopB<'_, '_> {
+    fn mark(&mut self, l: Option<usize>) {
+        while self.node_loop.len() < self.g.nodes.len() {
+            self.node_loop.push(l);
+        }
+    }
+    fn new_loop(&mut self, parent: Option<usize>) -> usize {
+        self.loops.push(parent);
+        self.loops.len() - 1
+    }
+    fn stateless_chain(&mut self, mut o: Open, max: u64, l: Option<usize>) -> Open {
+        for _ in 0..self.g.sim.choose("loop_stateless", 0, max) {
+            o = self.g.stateless_on(o);
+        }
+        self.mark(l);
+        o
+    }
+    /// `union(entries.., fb) -> tee -> {observe, decay -> [map] -> defer -> fb}` inside loop `l`;
+    /// returns the handle that is observed.
+    fn feedback_body(&mut self, entries: Vec<Open>, l: usize) -> Open {
+        let mut ins: Vec<Src> = entries.iter().map(|e| e.src).collect();
+        ins.push(Src { node: usize::MAX, port: 0 });
+        let fb_port = ins.len() - 1;
+        let u = self.g.push(Op::Union, ins);
+        let merged = Open { src: Src { node: u, port: 0 }, order: Order::Bag, single: false };
+        let merged = self.stateless_chain(merged, 1, Some(l));
+        let (a, b) = self.g.tee2(merged);
+        let d = self.g.node_on(Op::Decay, b, Order::Bag, false);
+        let d = if self.g.sim.flip("loop_fb_map", 1, 2) {
+            let f = self.g.sim.choose("loop_fb_f", 0, 1) as u8; // maps that keep the value decreasing
+            self.g.node_on(Op::Map { f: if f == 0 { 1 } else { 5 } }, d, Order::Bag, false)
+        } else {
+            d
+        };
+        let lazy = self.g.sim.flip("loop_fb_lazy", 1, 4);
+        let back = self.g.node_on(if lazy { Op::DeferTickLazy } else { Op::DeferTick }, d, Order::Bag, false);
+        self.g.nodes[u].ins[fb_port] = back.src;
+        self.mark(Some(l));
+        a
+    }
+}
+
+/// C26: parametrised loop templates.
+pub fn gen_loops(sim: &mut Sim) -> Program {
+    let mut g = G::new(sim);
+    let template = g.sim.weighted("loop_template", &[3, 2, 3, 3, 5, 3]);
+    let n_src = match template {
+        1 | 2 | 5 => 2,
+        _ => g.sim.choose("n_chans", 1, 2) as usize,
+    };
+    let srcs: Vec<Open> = (0..n_src).map(|_| g.new_source()).collect();
+    let mut b = LoopB { g: &mut g, loops: vec![], node_loop: vec![] };
+    b.mark(None);
+    // optional top-level preprocessing of the inputs
+    let mut ins: Vec<Open> = vec![];
+    for s in srcs {
+        let o = b.stateless_chain(s, 1, None);
+        ins.push(o);
+    }
+    let mut top_outs: Vec<Open> = vec![];
+    match template {
+        // A: root-level loop gating on batch()
+        0 => {
+            let l = b.new_loop(None);
+            let mut entries = vec![];
+            for i in ins.drain(..) {
+                let e = b.g.node_on(Op::Batch, i, Order::Bag, false);
+                entries.push(e);
+            }
+            b.mark(Some(l));
+            let cur = if entries.len() > 1 {
+                let srcs: Vec<Src> = entries.iter().map(|e| e.src).collect();
+                let u = b.g.push(Op::Union, srcs);
+                Open { src: Src { node: u, port: 0 }, order: Order::Bag, single: false }
+            } else {
+                entries[0]
+            };
+            let cur = b.stateless_chain(cur, 3, Some(l));
+            if b.g.sim.flip("exit_via_all_iterations", 1, 2) {
+                b.mark(Some(l));
+                let ai = b.g.node_on(Op::AllIterations, cur, Order::Bag, false);
+                b.mark(None);
+                let ai = b.stateless_chain(ai, 2, None);
+                top_outs.push(ai);
+            } else {
+                b.g.sink(cur);
+                b.mark(Some(l));
+            }
+        }
+        // B: two independent root-level loops
+        1 => {
+            for i in ins.drain(..) {
+                let l = b.new_loop(None);
+                let e = b.g.node_on(Op::Batch, i, Order::Bag, false);
+                let cur = b.stateless_chain(e, 2, Some(l));
+                b.g.sink(cur);
+                b.mark(Some(l));
+            }
+        }
+        // C: root-level loop with batch() and batch_lazy() entries
+        2 => {
+            let l = b.new_loop(None);
+            let e0 = b.g.node_on(Op::Batch, ins[0], Order::Bag, false);
+            let e1 = b.g.node_on(Op::BatchLazy, ins[1], Order::Bag, false);
+            ins.clear();
+            let u = b.g.push(Op::Union, vec![e0.src, e1.src]);
+            let cur = Open { src: Src { node: u, port: 0 }, order: Order::Bag, single: false };
+            let cur = b.stateless_chain(cur, 2, Some(l));
+            b.g.sink(cur);
+            b.mark(Some(l));
+        }
+        // D: root-level loop with a deferred feedback edge (next tick)
+        3 => {
+            let l = b.new_loop(None);
+            let mut entries = vec![];
+            for i in ins.drain(..) {
+                let e = b.g.node_on(Op::Batch, i, Order::Bag, false);
+                entries.push(e);
+            }
+            b.mark(Some(l));
+            let seen = b.feedback_body(entries, l);
+            b.g.sink(seen);
+            b.mark(Some(l));
+        }
+        // E: nested loop with defer_tick feedback (the documented 1 -> 10 -> 100 pattern, generalised)
+        4 => {
+            let root = b.new_loop(None);
+            let mut root_data = vec![];
+            for i in ins.drain(..) {
+                let e = b.g.node_on(Op::Batch, i, Order::Bag, false);
+                let e = b.stateless_chain(e, 1, Some(root));
+                let e = b.g.node_on(Op::Identity, e, Order::Bag, false);
+                root_data.push(e);
+            }
+            b.mark(Some(root));
+            let inner = b.new_loop(Some(root));
+            let mut entries = vec![];
+            for (k, rd) in root_data.into_iter().enumerate() {
+                let lazy = k > 0 && b.g.sim.flip("nested_entry_lazy", 1, 2);
+                let e = b.g.node_on(if lazy { Op::BatchLazy } else { Op::Batch }, rd, Order::Bag, false);
+                entries.push(e);
+            }
+            b.mark(Some(inner));
+            let seen = b.feedback_body(entries, inner);
+            match b.g.sim.weighted("nested_exit", &[2, 2, 1]) {
+                0 => {
+                    b.g.sink(seen);
+                    b.mark(Some(inner));
+                }
+                1 => {
+                    let ai = b.g.node_on(Op::AllIterations, seen, Order::Bag, false);
+                    b.mark(Some(root));
+                    let ai = b.stateless_chain(ai, 1, Some(root));
+                    b.g.sink(ai);
+                    b.mark(Some(root));
+                }
+                _ => {
+                    // out of both loops
+                    let (x, y) = b.g.tee2(seen);
+                    b.g.sink(x);
+                    b.mark(Some(inner));
+                    let ai = b.g.node_on(Op::AllIterations, y, Order::Bag, false);
+                    b.mark(Some(root));
+                    let ai2 = b.g.node_on(Op::AllIterations, ai, Order::Bag, false);
+                    b.mark(None);
+                    top_outs.push(ai2);
+                }
+            }
+        }
+        // F: lazy entries of a nested loop must not carry stale data across iterations or ticks
+        _ => {
+            let root = b.new_loop(None);
+            let trig = b.g.node_on(Op::Batch, ins[0], Order::Bag, false);
+            let trig = b.g.node_on(Op::Identity, trig, Order::Bag, false);
+            let lazy = b.g.node_on(Op::BatchLazy, ins[1], Order::Bag, false);
+            let lazy = b.g.node_on(Op::Identity, lazy, Order::Bag, false);
+            ins.clear();
+            b.mark(Some(root));
+            let mid = b.new_loop(Some(root));
+            let e = b.g.node_on(Op::Batch, trig, Order::Bag, false);
+            let lz = b.g.node_on(Op::BatchLazy, lazy, Order::Bag, false);
+            let lz = b.g.node_on(Op::Identity, lz, Order::Bag, false);
+            b.mark(Some(mid));
+            let merged = b.feedback_body(vec![e], mid);
+            let innermost = b.new_loop(Some(mid));
+            let i0 = b.g.node_on(Op::Batch, merged, Order::Bag, false);
+            let i1 = b.g.node_on(Op::BatchLazy, lz, Order::Bag, false);
+            let u = b.g.push(Op::Union, vec![i0.src, i1.src]);
+            let cur = Open { src: Src { node: u, port: 0 }, order: Order::Bag, single: false };
+            b.mark(Some(innermost));
+            let a1 = b.g.node_on(Op::AllIterations, cur, Order::Bag, false);
+            b.mark(Some(mid));
+            let a2 = b.g.node_on(Op::AllIterations, a1, Order::Bag, false);
+            b.mark(Some(root));
+            b.g.sink(a2);
+            b.mark(Some(root));
+        }
+    }
+    b.mark(None);
+    for o in ins.drain(..) {
+        top_outs.push(o);
+    }
+    for o in top_outs {
+        b.g.sink(o);
+    }
+    b.mark(None);
+    let (loops, node_loop) = (b.loops, b.node_loop);
+    let mut p = g.finish("loops");
+    p.loops = loops;
+    p.node_loop = node_loop;
+    p
 }
